@@ -114,6 +114,44 @@ let run line =
       (match count_module m with
        | None -> "FAIL"
        | Some u -> "OK " ^ String.concat " ; " (List.map (fun (p, n) -> show p ^ " " ^ string_of_int (int_of_n n)) u))
+  | "W" ->
+      (* diagnosis for signatures: WHICH checker-side well-formedness condition a toolkit-accepted module misses *)
+      let axs = lst rpat in let cls = lst rpat in let prs = lst rterm in
+      let m = { m_axioms = axs; m_claims = cls; m_proofs = prs } in
+      let fails = ref [] in
+      let add f = if not (List.mem f !fails) then fails := f :: !fails in
+      let rec pf p = match p with
+        | EVar _ | SVar _ | Sym _ -> ()
+        | MVar (_, ef, _, _, _, holes) -> if List.exists (fun h -> List.mem h ef) holes then add "holes"
+        | Imp (l, r) | App (l, r) -> pf l; pf r
+        | Ex (_, q) -> pf q
+        | Mu (x, q) -> pf q; if not (pat_positive q x) then add "mu"
+        | ESub (q, _, plug) | SSub (q, _, plug) ->
+            pf q; pf plug; if is_redundant_subst p then add "redundant"; if not (is_meta_head q) then add "shape" in
+      let rec tf t = match t with
+        | PMP (a, b) -> tf a; tf b
+        | PGen (a, _) -> tf a
+        | PInst (a, _) -> add "static-inst"; tf a
+        | PLoadAxiom p -> if not (List.exists (fun a -> pat_eqb p a) axs) then add "loads"
+        | PDynInst (a, d) ->
+            tf a;
+            if d <> [] then begin
+              List.iter (fun (_, p) -> pf p) d;
+              match static_conc axs a with
+              | None -> add "static"
+              | Some c ->
+                  let ids = List.rev (List.map fst d) and plugs = List.rev (List.map snd d) in
+                  (match inst guards_sound c ids plugs with
+                   | Some r -> if not (pat_eqb r (py_inst d c)) then add "differs"
+                   | None ->
+                       (match inst { guards_sound with g_inst_constraints = false } c ids plugs with
+                        | Some _ -> add "constraints" | None -> add "capture"))
+            end
+        | _ -> () in
+      List.iter pf axs; List.iter pf cls; List.iter tf prs;
+      if List.length cls <> List.length prs then add "claims";
+      if module_ok m then (if !fails = [] then "WF" else "WF-BUT " ^ String.concat " " !fails)
+      else "WFFAIL " ^ (if !fails = [] then "other" else String.concat " " (List.rev !fails))
   | _ -> "BAD"
 
 let () =
